@@ -92,7 +92,9 @@ def fill(claim, NA):
 		  "empty network and is preserved by add_node, add_edge, add_successor, add_predecessor, remove_node and reindex_nodes (any map injective on the labels): "
 		  "coherent_addNode/_link/_addSucc/_addPred/_addEdge/_removeNode/_reindex, coherent_apply; hence after ANY operation sequence of any length "
 		  "(coherent_reachable, induction over the op list); removeNode_gone; edges_iff_preds (both adjacency lists describe the same graph); "
-		  "toEchelon_mono and local_echelon_inverse (echelon<->local conversion is the identity on non-negative local levels, any number of stages). "
+		  "toEchelon_mono and local_echelon_inverse (echelon<->local conversion is the identity on non-negative local levels, any number of stages); coherent_unlink; "
+		  "product registries (Props/C18Reg.lean over Model/Registry.lean): explicit_product_stays (a product added to the network itself stays a product of the network until "
+		  "it is removed from the network, for every sequence of node-level and network-level operations), loc_persists, not_product, products_spec. "
 		  "Tie: random operation sequences on real SupplyChainNetwork objects with the structure dumped through the public accessors after every operation "
 		  "(nodes order, adjacency lists, edges, sources, sinks, descendants, ancestors, accepted/KeyError) compared exactly with the model, plus the coherence "
 		  "predicate on the real objects; level conversions vs model. Builders' topology/attribute placement and derived BOM views: reference predicates in the harness (labelled tests).",
